@@ -143,19 +143,20 @@ func run(c Case, o *vt.Obs) *vt.Failure {
 	// the end), after further updates were applied (the store is a concurrent state machine: raft saves in the background while it keeps
 	// applying).  The image must be the state at prepare time.
 	d := newLFSM()
-	var pendCtx any
+	var pendCtx any // what PrepareSnapshot handed back (whatever it is - it may well be nil: the context is the state machine's own business)
+	pending := false
 	var pendExpect map[string]kv.Pair
 	pendUpdates := 0
 	lateSaves := 0
 	saveLate := func(step int) *vt.Failure {
-		if pendCtx == nil {
+		if !pending {
 			return nil
 		}
 		var buf bytes.Buffer
 		if err := d.SaveSnapshot(pendCtx, &buf, nil, nil); err != nil {
 			return vt.Failf(prop+"/snapshot-error", step, "late save: %v", err)
 		}
-		pendCtx = nil
+		pendCtx, pending = nil, false
 		n := newLFSM()
 		if err := n.RecoverFromSnapshot(bytes.NewReader(buf.Bytes()), nil, nil); err != nil {
 			return vt.Failf(prop+"/restore-error", step, "restore of a late-saved snapshot: %v", err)
@@ -395,6 +396,7 @@ func run(c Case, o *vt.Obs) *vt.Failure {
 			if pendCtx, err = d.PrepareSnapshot(); err != nil {
 				return vt.Failf(prop+"/snapshot-error", i, "prepare: %v", err)
 			}
+			pending = true
 			pendExpect, pendUpdates = map[string]kv.Pair{}, 0
 			_ = json.Unmarshal(sa, &pendExpect)
 			// restore into a fresh store, which then replaces replica A
